@@ -23,7 +23,7 @@ ASSUMPTIONS = ["reference channel simulation on dense density matrices: depolari
                "photon loss = scalar weight (1-r); 'before' noise precedes the gate, 'after' follows it; wrapper sub-gates carry their own models",
                "measuring operations are generated only where the state is still pure (the two backends define a forced measurement of a mixed state "
                "differently by design: post-selection vs per-branch)", "tolerance 1e-9"]
-REQUIRED_CLASSES = {"noisy": ["entangling", "class_U", "class_M", "two_qubit_mixed_placement", "wrapper_noise_list", "wrapper_single_model", "strength_0", "strength_1",
+REQUIRED_CLASSES = {"noisy": ["entangling", "class_U", "class_M", "two_qubit_mixed_placement", "wrapper_noise_list", "wrapper_single_model", "strength_changed_in_place", "strength_0", "strength_1",
                               "before", "after", "kind:depol", "kind:pauli", "kind:loss"],
                     "large": ["qubits>=32", "kind:depol"],
                     "map": ["via_map", "wrapper_asymmetric_noise", "two_qubit_mixed_placement", "class_M", "entangling", "emitter+photon"]}
@@ -401,6 +401,47 @@ def check_core(case, desc, noises, circ, objs, sub, icls, cl, nontrivial):
             inf2 = guarded(sub, icls, metric.evaluate, sst, circ)
             if abs(inf2 - inf) > 1e-12:
                 raise Violation(sub, "infidelity-metric", "Infidelity(stab)", icls, "second evaluation on the same state: %.10g, first %.10g" % (inf2, inf))
+    # (b') the strength of every depolarizing model object is changed in place (a strength sweep on one circuit) and the circuit
+    # compiled again by both backends: the results are those of the new strengths
+    import copy as _copy
+
+    noises2 = _copy.deepcopy(noises)
+    changed = 0
+
+    def walk(spec_holder, obj_holder):
+        nonlocal changed
+        for k, sp in enumerate(spec_holder):
+            ob = obj_holder[k] if isinstance(obj_holder, list) else obj_holder
+            if sp is not None and sp[0] == "depol" and type(ob).__name__ == "DepolarizingNoise":
+                newp = float(sp[1]) / 2 if float(sp[1]) > 0 else 0.3
+                sp[1] = newp
+                ob.noise_parameters["Depolarizing probability"] = newp
+                changed += 1
+
+    for i, nz in enumerate(noises2):
+        if nz is None or objs[i] is None:
+            continue
+        ob = objs[i].noise
+        if isinstance(nz, dict):
+            walk([nz["whole"]], ob)
+        elif isinstance(nz[0], (list, type(None))):
+            walk(nz, ob if isinstance(ob, list) else [ob] * len(nz))
+        else:
+            walk([nz], ob)
+    if changed and sub != "map":
+        cl.append("strength_changed_in_place")
+        rho_ref2, trace_ref2, rom2 = reference(desc, circ, objs=objs, noises=noises2)
+        rho2 = np.asarray(compile_noisy(sub, icls, circ, "dm").rep_data.data)
+        if np.linalg.norm(rho2 - rho_ref2) > 1e-8:
+            raise Violation(sub, "state-mismatch", "dm", icls + ":strength_changed_in_place",
+                            "after changing the depolarizing probabilities of the same noise objects the density matrix is not that of the new strengths")
+        if not rom2:
+            mix2 = mixture_of(compile_noisy(sub, icls, circ, "stab"))
+            tv0 = gs.present(dict(case["targets"][0], n=n))[2]
+            want2 = float(np.real(np.vdot(tv0, rho_ref2 @ tv0)))
+            got2 = sum(p * abs(np.vdot(tv0, branch_vector(rp.stabilizer_paulis(t), n))) ** 2 for p, t in mix2)
+            if abs(got2 - want2) > 1e-8:
+                raise Violation(sub, "fidelity-mismatch", "stab-vs-dm", icls + ":strength_changed_in_place", "after an in-place strength change: %.10g vs %.10g" % (got2, want2))
     # (c) switches: noise simulation off reproduces the noiseless state
     rho0, _, _ = reference(desc, circ, noise_on=False, objs=objs, noises=noises)
     for backend in ("dm", "stab"):
